@@ -220,6 +220,10 @@ func NewRootConfig(
 	}); err != nil {
 		return nil, k, fmt.Errorf("unmarshalling config: %w", err)
 	}
+	// The config file may have been discovered by searching the parent
+	// directories instead of being named by --config/MOCKERY_CONFIG. The
+	// config templates (.ConfigDir) need its location in either case.
+	rootConfig.ConfigFile = addr(configFile.String())
 	if err := rootConfig.Initialize(ctx); err != nil {
 		return nil, k, fmt.Errorf("initializing root config: %w", err)
 	}
@@ -622,15 +626,15 @@ func (c *Config) ParseTemplates(ctx context.Context, iface *Interface, srcPkg *p
 		interfaceFile = iface.FileName
 		interfaceName = iface.Name
 
-		workingDir, err := os.Getwd()
+		configDir, err := filepath.Abs(filepath.Dir(*c.ConfigFile))
 		if err != nil {
-			return fmt.Errorf("get working directory: %w", err)
+			return fmt.Errorf("get absolute path of config directory: %w", err)
 		}
 		interfaceDirPath := pathlib.NewPath(iface.FileName).Parent()
 		interfaceDir = interfaceDirPath.String()
-		interfaceDirRelativePath, err := interfaceDirPath.RelativeToStr(workingDir)
+		interfaceDirRelativePath, err := interfaceDirPath.RelativeToStr(configDir)
 		if err != nil {
-			log.Debug().Err(err).Msg("can't make path relative to working dir, setting to './'")
+			log.Debug().Err(err).Msg("can't make path relative to config dir, setting to './'")
 			interfaceDirRelative = "."
 		} else {
 			interfaceDirRelative = interfaceDirRelativePath.String()
